@@ -8,12 +8,28 @@ Pts == Lat \X Lat
 Less(p, q) == p[1] < q[1] \/ (p[1] = q[1] /\ p[2] < q[2])
 After(a) == {p \in Pts : Less(a, p)}
 (* rings start at their smallest vertex (a ring is cyclic; both directions are kept) *)
-TrisCanon == UNION {{t \in {<<<<a, b, c>>>> : b \in After(a), c \in After(a)} : t[1][2] # t[1][3]} : a \in Pts}
-QuadsCanon == UNION {{q \in {<<<<a, b, c, d>>>> : b \in After(a), c \in After(a), d \in After(a)} :
-                         q[1][2] # q[1][3] /\ q[1][3] # q[1][4] /\ q[1][2] # q[1][4]} : a \in Pts}
-(* a frame with a triangular hole, the hole at every position: holes collapse, touch the shell's pixels, cancel *)
 Inner == (1..(N * S - 2)) \X (1..(N * S - 2))
 Shell == <<<<0, 0>>, <<N * S - 1, 0>>, <<N * S - 1, N * S - 1>>, <<0, N * S - 1>>>>
-FramesCanon == UNION {{f \in {<<Shell, <<a, b, c>>>> : b \in {p \in Inner : Less(a, p)}, c \in {p \in Inner : Less(a, p)}} : f[2][2] # f[2][3]} : a \in Inner}
-MCInputs == CASE Shape = "tri" -> TrisCanon [] Shape = "quad" -> QuadsCanon [] Shape = "frame" -> FramesCanon
+MCInputs == {}        \* (Snap!Init is not used by this model: see MCInit / Pick below)
+
+(* TLC computes initial states with one thread; to let the workers share the evaluation the model starts from the polygon's
+   first vertex (and the flags) and completes the polygon in a first step *)
+Completions(a) ==
+  CASE Shape = "tri"   -> {t \in {<<<<a, b, c>>>> : b \in After(a), c \in After(a)} : t[1][2] # t[1][3]}
+    [] Shape = "quad"  -> {q \in {<<<<a, b, c, d>>>> : b \in After(a), c \in After(a), d \in After(a)} :
+                             q[1][2] # q[1][3] /\ q[1][3] # q[1][4] /\ q[1][2] # q[1][4]}
+    [] Shape = "frame" -> {f \in {<<Shell, <<a, b, c>>>> : b \in {p \in Inner : Less(a, p)}, c \in {p \in Inner : Less(a, p)}} : f[2][2] # f[2][3]}
+Seeds == {a \in (IF Shape = "frame" THEN Inner ELSE Pts) : Completions(a) # {}}
+MCInit == /\ poly \in {<<<<a>>>> : a \in Seeds} /\ keep \in BOOLEAN /\ rev \in BOOLEAN /\ ig \in BOOLEAN
+          /\ req \in (SUBSET Ks) \ {{}}
+          /\ pc = "pick" /\ vq = {} /\ hot = {} /\ live = req /\ ri = 0 /\ si = 0 /\ ring = <<>>
+          /\ chain = EmptyBy /\ todo = {} /\ outers = EmptyBy /\ inners = EmptyBy /\ pls = EmptyBy
+          /\ result = [k \in {} |-> <<>>]
+Pick == /\ pc = "pick"
+        /\ poly' \in Completions(poly[1][1])
+        /\ vq' = AllVerts(poly') /\ pc' = "insert"
+        /\ UNCHANGED <<keep, rev, ig, req, hot, live, ri, si, ring, chain, todo, outers, inners, pls, result>>
+MCNext == Pick \/ Next
+MCSpec == MCInit /\ [][MCNext]_vars /\ WF_vars(MCNext)
+MCTerminates == <>(pc \in {"done", "panic"})
 =============================================================================
